@@ -1,3 +1,580 @@
+/-
+C01 — suggested rewrites preserve the behaviour of the code they replace.
+
+For each value-level rule of Model/Rules.lean: for EVERY assignment of values of the declared types
+to the operands, the old and the new expression have the same observable outcome (same value with
+the same type, or both raise) — `Sound`.  Where the rewrite is unsound on another part of the domain
+its check accepts, the refuting variant is proved `¬ Sound` from a concrete witness.  Operands are
+variables bound to values (pure, never raising).  Checks whose behaviour lives in the standard
+library, the OS or user classes have no theorem (listed under not_proved in the evidence): C01 is partial.
+-/
+import RefurbVerif.Model.Rules
+import RefurbVerif.Generated.C01Tables
+
 namespace RefurbVerif.C01
-theorem placeholder : True := trivial
+open RefurbVerif.Py
+
+def Val.hasNaN : Val → Bool
+  | .sc s => s.isNaN
+  | .list xs => xs.any Scalar.isNaN
+  | .tuple xs => xs.any Scalar.isNaN
+
+/-- every operand variable is bound to a value of exactly its declared class (`none`: any scalar) -/
+def WellTyped (r : Rule) (σ : Env) : Prop :=
+  ∀ p ∈ r.vars, ∃ v, σ p.1 = some v ∧
+    (match p.2 with
+     | some t => typeOf v = t
+     | none => ∃ s, v = .sc s)
+
+/-- no operand is (or contains) a NaN: the domain on which the model's equality-based `in` is Python's
+    `in` (which tests identity first — the recorded NaN finding) -/
+def NaNFree (r : Rule) (σ : Env) : Prop := ∀ p ∈ r.vars, ∀ v, σ p.1 = some v → Val.hasNaN v = false
+
+/-- what the property compares: the value (or, in condition position, its truth value), or "raised" -/
+def observe (r : Rule) (res : Except Err Val) : Option Val :=
+  if r.condPos then (outcome res).map (fun v => vBool (truthy v)) else outcome res
+
+def Sound (r : Rule) : Prop :=
+  ∀ σ, WellTyped r σ → NaNFree r σ → observe r (eval σ r.old) = observe r (eval σ r.new)
+
+/-! ### helpers -/
+
+theorem of_int {v : Val} (h : typeOf v = .int) : ∃ i, v = .sc (.int i) := by
+  cases v with
+  | sc s => cases s <;> simp [typeOf] at h; exact ⟨_, rfl⟩
+  | list _ => simp [typeOf] at h
+  | tuple _ => simp [typeOf] at h
+theorem of_bool {v : Val} (h : typeOf v = .bool) : ∃ b, v = .sc (.bool b) := by
+  cases v with
+  | sc s => cases s <;> simp [typeOf] at h; exact ⟨_, rfl⟩
+  | list _ => simp [typeOf] at h
+  | tuple _ => simp [typeOf] at h
+theorem of_str {v : Val} (h : typeOf v = .str) : ∃ s, v = .sc (.str s) := by
+  cases v with
+  | sc s => cases s <;> simp [typeOf] at h; exact ⟨_, rfl⟩
+  | list _ => simp [typeOf] at h
+  | tuple _ => simp [typeOf] at h
+theorem of_float {v : Val} (h : typeOf v = .float) : ∃ f, v = .sc (.flt f) := by
+  cases v with
+  | sc s => cases s <;> simp [typeOf] at h; exact ⟨_, rfl⟩
+  | list _ => simp [typeOf] at h
+  | tuple _ => simp [typeOf] at h
+theorem of_list {v : Val} (h : typeOf v = .list) : ∃ xs, v = .list xs := by
+  cases v with
+  | sc s => cases s <;> simp [typeOf] at h
+  | list xs => exact ⟨xs, rfl⟩
+  | tuple _ => simp [typeOf] at h
+theorem of_tuple {v : Val} (h : typeOf v = .tuple) : ∃ xs, v = .tuple xs := by
+  cases v with
+  | sc s => cases s <;> simp [typeOf] at h
+  | list _ => simp [typeOf] at h
+  | tuple xs => exact ⟨xs, rfl⟩
+
+macro "py_simp" : tactic => `(tactic| simp [observe, outcome, eval, x, y, z, lInt, lTrue, lFalse, lNone, lStrEmpty, lListEmpty, lTupleEmpty,
+  vBool, vInt, vNone, Bind.bind, Except.bind, pure, Except.pure, pyEq, pyIn, pyIs, pyLen, pyLt, sLt, cmpLe, pyMin2, pyMax2, scalarOf,
+  truthy, Scalar.truthy, Scalar.num?, Scalar.isNaN, isInstance, typeOf, *])
+
+/-- what `==` looks at: the numeric value, None, the text, or "NaN" -/
+inductive Norm where
+  | num (z : Int) | none | str (s : List Char) | nan
+  deriving DecidableEq
+
+def norm : Scalar → Norm
+  | .none => .none
+  | .bool b => .num (if b then 1 else 0)
+  | .int i => .num i
+  | .flt .nan => .nan
+  | .flt .negZero => .num 0
+  | .flt (.whole z) => .num z
+  | .str s => .str s
+
+theorem sEq_norm (a b : Scalar) : sEq a b = (decide (norm a = norm b) && decide (norm a ≠ .nan)) := by
+  cases a <;> cases b <;> simp [sEq, Scalar.num?, norm] <;>
+    (try (rename_i f g; cases f <;> cases g <;> simp [sEq, Scalar.num?, norm])) <;>
+    (try (rename_i f; cases f <;> simp [sEq, Scalar.num?, norm])) <;>
+    (try (first | exact beq_eq_decide _ _ | (rw [Bool.eq_iff_iff]; simp) | omega))
+
+/-- `==` is substitutive on the left once it holds (NaN included: NaN equals nothing) -/
+theorem sEq_trans_left (a b c : Scalar) (h : sEq a b = true) : sEq a c = sEq b c := by
+  rw [sEq_norm] at h
+  simp only [Bool.and_eq_true, decide_eq_true_eq] at h
+  rw [sEq_norm, sEq_norm, h.1]
+
+theorem strLt_asymm : ∀ a b : List Char, strLt a b = true → strLt b a = false := by
+  intro a
+  induction a with
+  | nil => intro b _; cases b <;> simp [strLt]
+  | cons c cs ih =>
+    intro b h
+    cases b with
+    | nil => simp [strLt] at h
+    | cons d ds =>
+      simp only [strLt] at h ⊢
+      by_cases h1 : c < d
+      · have : ¬ d < c := fun h2 => by
+          simp only [Char.lt_def, UInt32.lt_iff_toNat_lt] at h1 h2; omega
+        simp [this, h1]
+      · by_cases h2 : d < c
+        · simp [h1, h2] at h
+        · simp only [h1, h2, ↓reduceIte] at h ⊢
+          exact ih ds h
+
+/-- strings: if neither is smaller they are equal -/
+theorem strLt_total : ∀ a b : List Char, strLt a b = false → strLt b a = false → a = b := by
+  intro a
+  induction a with
+  | nil => intro b h _; cases b <;> simp_all [strLt]
+  | cons c cs ih =>
+    intro b h h'
+    cases b with
+    | nil => simp [strLt] at h'
+    | cons d ds =>
+      simp only [strLt] at h h'
+      by_cases h1 : c < d
+      · simp [h1] at h
+      · by_cases h2 : d < c
+        · simp [h2] at h'
+        · simp only [h1, h2, ↓reduceIte] at h h'
+          have hcd : c = d := by
+            apply Char.ext; apply UInt32.toNat_inj.mp
+            simp only [Char.lt_def, UInt32.lt_iff_toNat_lt] at h1 h2; omega
+          rw [hcd, ih ds h h']
+
+/-! ### the rules, one theorem each -/
+/-- FURB108 on NaN-free scalars: the Boolean `or` of two equalities is membership in the pair -/
+theorem sound_108 : Sound r108_eq_or_eq := by
+  intro σ hwt _
+  obtain ⟨vx, hx0, htx⟩ := hwt ("x", anyS) (by simp [r108_eq_or_eq])
+  obtain ⟨sx, rfl⟩ := htx
+  have hx : σ "x" = some _ := hx0
+  obtain ⟨vy, hy0, hty⟩ := hwt ("y", anyS) (by simp [r108_eq_or_eq])
+  obtain ⟨sy, rfl⟩ := hty
+  have hy : σ "y" = some _ := hy0
+  obtain ⟨vz, hz0, htz⟩ := hwt ("z", anyS) (by simp [r108_eq_or_eq])
+  obtain ⟨sz, rfl⟩ := htz
+  have hz : σ "z" = some _ := hz0
+  simp only [r108_eq_or_eq]
+  py_simp
+  all_goals (cases h1 : sEq sx sy <;> simp)
+
+theorem sound_109 : Sound r109_in_list := by
+  intro σ hwt _
+  obtain ⟨vx, hx0, htx⟩ := hwt ("x", anyS) (by simp [r109_in_list])
+  obtain ⟨sx, rfl⟩ := htx
+  have hx : σ "x" = some _ := hx0
+  obtain ⟨vy, hy0, hty⟩ := hwt ("y", anyS) (by simp [r109_in_list])
+  obtain ⟨sy, rfl⟩ := hty
+  have hy : σ "y" = some _ := hy0
+  obtain ⟨vz, hz0, htz⟩ := hwt ("z", anyS) (by simp [r109_in_list])
+  obtain ⟨sz, rfl⟩ := htz
+  have hz : σ "z" = some _ := hz0
+  simp only [r109_in_list]
+  py_simp
+
+/-- FURB110: `x if x else y` is `x or y`, for operands of any class -/
+theorem sound_110 : Sound r110_if_else_or := by
+  intro σ hwt _
+  obtain ⟨vx, hx0, htx⟩ := hwt ("x", anyS) (by simp [r110_if_else_or])
+  obtain ⟨sx, rfl⟩ := htx
+  have hx : σ "x" = some _ := hx0
+  obtain ⟨vy, hy0, hty⟩ := hwt ("y", anyS) (by simp [r110_if_else_or])
+  obtain ⟨sy, rfl⟩ := hty
+  have hy : σ "y" = some _ := hy0
+  simp only [r110_if_else_or]
+  py_simp
+
+theorem sound_114 : Sound r114_not_not := by
+  intro σ hwt _
+  obtain ⟨vx, hx0, htx⟩ := hwt ("x", anyS) (by simp [r114_not_not])
+  obtain ⟨sx, rfl⟩ := htx
+  have hx : σ "x" = some _ := hx0
+  simp only [r114_not_not]
+  py_simp
+
+/-- FURB115 in condition position: the branch taken is the same -/
+theorem sound_115_eq0_str : Sound r115_len_eq_0_str := by
+  intro σ hwt _
+  obtain ⟨vx, hx0, htx⟩ := hwt ("x", some .str) (by simp [r115_len_eq_0_str])
+  obtain ⟨sx, rfl⟩ := of_str htx
+  have hx : σ "x" = some _ := hx0
+  simp only [r115_len_eq_0_str]
+  py_simp
+  all_goals (cases sx <;> simp [sEq, Scalar.num?] <;> omega)
+
+theorem sound_115_eq0_list : Sound r115_len_eq_0_list := by
+  intro σ hwt _
+  obtain ⟨vx, hx0, htx⟩ := hwt ("x", some .list) (by simp [r115_len_eq_0_list])
+  obtain ⟨xsx, rfl⟩ := of_list htx
+  have hx : σ "x" = some _ := hx0
+  simp only [r115_len_eq_0_list]
+  py_simp
+  all_goals (cases xsx <;> simp [sEq, Scalar.num?] <;> omega)
+
+theorem sound_115_ge1_list : Sound r115_len_ge_1_list := by
+  intro σ hwt _
+  obtain ⟨vx, hx0, htx⟩ := hwt ("x", some .list) (by simp [r115_len_ge_1_list])
+  obtain ⟨xsx, rfl⟩ := of_list htx
+  have hx : σ "x" = some _ := hx0
+  simp only [r115_len_ge_1_list]
+  py_simp
+  all_goals (cases xsx <;> simp [sEq, Scalar.num?] <;> omega)
+
+theorem sound_115_gt0_tuple : Sound r115_len_gt_0_tuple := by
+  intro σ hwt _
+  obtain ⟨vx, hx0, htx⟩ := hwt ("x", some .tuple) (by simp [r115_len_gt_0_tuple])
+  obtain ⟨xsx, rfl⟩ := of_tuple htx
+  have hx : σ "x" = some _ := hx0
+  simp only [r115_len_gt_0_tuple]
+  py_simp
+  all_goals (cases xsx <;> simp <;> omega)
+
+theorem sound_115_ne0_str : Sound r115_len_ne_0_str := by
+  intro σ hwt _
+  obtain ⟨vx, hx0, htx⟩ := hwt ("x", some .str) (by simp [r115_len_ne_0_str])
+  obtain ⟨sx, rfl⟩ := of_str htx
+  have hx : σ "x" = some _ := hx0
+  simp only [r115_len_ne_0_str]
+  py_simp
+  all_goals (cases sx <;> simp [sEq, Scalar.num?] <;> omega)
+
+/-- FURB123: the cast is the identity exactly when the operand already has that class -/
+theorem sound_123_int : Sound r123_int := by
+  intro σ hwt _
+  obtain ⟨vx, hx0, htx⟩ := hwt ("x", some .int) (by simp [r123_int])
+  obtain ⟨ix, rfl⟩ := of_int htx
+  have hx : σ "x" = some _ := hx0
+  simp only [r123_int]
+  py_simp
+
+theorem sound_123_str : Sound r123_str := by
+  intro σ hwt _
+  obtain ⟨vx, hx0, htx⟩ := hwt ("x", some .str) (by simp [r123_str])
+  obtain ⟨sx, rfl⟩ := of_str htx
+  have hx : σ "x" = some _ := hx0
+  simp only [r123_str]
+  py_simp
+
+theorem sound_123_bool : Sound r123_bool := by
+  intro σ hwt _
+  obtain ⟨vx, hx0, htx⟩ := hwt ("x", some .bool) (by simp [r123_bool])
+  obtain ⟨bx, rfl⟩ := of_bool htx
+  have hx : σ "x" = some _ := hx0
+  simp only [r123_bool]
+  py_simp
+
+theorem sound_123_list : Sound r123_list := by
+  intro σ hwt _
+  obtain ⟨vx, hx0, htx⟩ := hwt ("x", some .list) (by simp [r123_list])
+  obtain ⟨xsx, rfl⟩ := of_list htx
+  have hx : σ "x" = some _ := hx0
+  simp only [r123_list]
+  py_simp
+
+theorem sound_123_tuple : Sound r123_tuple := by
+  intro σ hwt _
+  obtain ⟨vx, hx0, htx⟩ := hwt ("x", some .tuple) (by simp [r123_tuple])
+  obtain ⟨xsx, rfl⟩ := of_tuple htx
+  have hx : σ "x" = some _ := hx0
+  simp only [r123_tuple]
+  py_simp
+
+/-- FURB124: `x == y and x == z` is the chain `x == y == z` (needs: `==` is substitutive once it holds) -/
+theorem sound_124 : Sound r124_eq_and_eq := by
+  intro σ hwt _
+  obtain ⟨vx, hx0, htx⟩ := hwt ("x", anyS) (by simp [r124_eq_and_eq])
+  obtain ⟨sx, rfl⟩ := htx
+  have hx : σ "x" = some _ := hx0
+  obtain ⟨vy, hy0, hty⟩ := hwt ("y", anyS) (by simp [r124_eq_and_eq])
+  obtain ⟨sy, rfl⟩ := hty
+  have hy : σ "y" = some _ := hy0
+  obtain ⟨vz, hz0, htz⟩ := hwt ("z", anyS) (by simp [r124_eq_and_eq])
+  obtain ⟨sz, rfl⟩ := htz
+  have hz : σ "z" = some _ := hz0
+  simp only [r124_eq_and_eq]
+  py_simp
+  cases h1 : sEq sx sy
+  · simp
+  · simp [sEq_trans_left sx sy sz h1]
+
+/-- FURB136 on two ints: a tie is one and the same value, so first-wins (max) and the else-branch agree -/
+theorem sound_136_max_int : Sound r136_max_int := by
+  intro σ hwt _
+  obtain ⟨vx, hx0, htx⟩ := hwt ("x", some .int) (by simp [r136_max_int])
+  obtain ⟨ix, rfl⟩ := of_int htx
+  have hx : σ "x" = some _ := hx0
+  obtain ⟨vy, hy0, hty⟩ := hwt ("y", some .int) (by simp [r136_max_int])
+  obtain ⟨iy, rfl⟩ := of_int hty
+  have hy : σ "y" = some _ := hy0
+  simp only [r136_max_int]
+  py_simp
+  all_goals (by_cases h : iy < ix <;> by_cases h' : ix < iy <;> simp [h, h'] <;> omega)
+
+theorem sound_136_min_int : Sound r136_min_int := by
+  intro σ hwt _
+  obtain ⟨vx, hx0, htx⟩ := hwt ("x", some .int) (by simp [r136_min_int])
+  obtain ⟨ix, rfl⟩ := of_int htx
+  have hx : σ "x" = some _ := hx0
+  obtain ⟨vy, hy0, hty⟩ := hwt ("y", some .int) (by simp [r136_min_int])
+  obtain ⟨iy, rfl⟩ := of_int hty
+  have hy : σ "y" = some _ := hy0
+  simp only [r136_min_int]
+  py_simp
+  all_goals (by_cases h : iy < ix <;> by_cases h' : ix < iy <;> simp [h, h'] <;> omega)
+
+theorem sound_136_max_str : Sound r136_max_str := by
+  intro σ hwt _
+  obtain ⟨vx, hx0, htx⟩ := hwt ("x", some .str) (by simp [r136_max_str])
+  obtain ⟨sx, rfl⟩ := of_str htx
+  have hx : σ "x" = some _ := hx0
+  obtain ⟨vy, hy0, hty⟩ := hwt ("y", some .str) (by simp [r136_max_str])
+  obtain ⟨sy, rfl⟩ := of_str hty
+  have hy : σ "y" = some _ := hy0
+  simp only [r136_max_str]
+  py_simp
+  cases h : strLt sy sx <;> cases h' : strLt sx sy <;> simp
+  · rw [strLt_total sx sy h' h]
+  · have := strLt_asymm sy sx h; simp [this] at h'
+
+/-- FURB143: `x or <the empty value of x's own class>` is `x` -/
+theorem sound_143_str : Sound r143_or_empty_str := by
+  intro σ hwt _
+  obtain ⟨vx, hx0, htx⟩ := hwt ("x", some .str) (by simp [r143_or_empty_str])
+  obtain ⟨sx, rfl⟩ := of_str htx
+  have hx : σ "x" = some _ := hx0
+  simp only [r143_or_empty_str]
+  py_simp
+  all_goals (cases sx <;> simp)
+
+theorem sound_143_int : Sound r143_or_zero_int := by
+  intro σ hwt _
+  obtain ⟨vx, hx0, htx⟩ := hwt ("x", some .int) (by simp [r143_or_zero_int])
+  obtain ⟨ix, rfl⟩ := of_int htx
+  have hx : σ "x" = some _ := hx0
+  simp only [r143_or_zero_int]
+  py_simp
+  all_goals (by_cases h : ix = 0 <;> simp [h])
+
+theorem sound_143_list : Sound r143_or_empty_list := by
+  intro σ hwt _
+  obtain ⟨vx, hx0, htx⟩ := hwt ("x", some .list) (by simp [r143_or_empty_list])
+  obtain ⟨xsx, rfl⟩ := of_list htx
+  have hx : σ "x" = some _ := hx0
+  simp only [r143_or_empty_list]
+  py_simp
+  all_goals (cases xsx <;> simp)
+
+theorem sound_143_bool : Sound r143_or_false_bool := by
+  intro σ hwt _
+  obtain ⟨vx, hx0, htx⟩ := hwt ("x", some .bool) (by simp [r143_or_false_bool])
+  obtain ⟨bx, rfl⟩ := of_bool htx
+  have hx : σ "x" = some _ := hx0
+  simp only [r143_or_false_bool]
+  py_simp
+  all_goals (cases bx <;> simp)
+
+theorem sound_143_tuple : Sound r143_or_empty_tuple := by
+  intro σ hwt _
+  obtain ⟨vx, hx0, htx⟩ := hwt ("x", some .tuple) (by simp [r143_or_empty_tuple])
+  obtain ⟨xsx, rfl⟩ := of_tuple htx
+  have hx : σ "x" = some _ := hx0
+  simp only [r143_or_empty_tuple]
+  py_simp
+  all_goals (cases xsx <;> simp)
+
+theorem sound_145_list : Sound r145_slice_copy_list := by
+  intro σ hwt _
+  obtain ⟨vx, hx0, htx⟩ := hwt ("x", some .list) (by simp [r145_slice_copy_list])
+  obtain ⟨xsx, rfl⟩ := of_list htx
+  have hx : σ "x" = some _ := hx0
+  simp only [r145_slice_copy_list]
+  py_simp
+
+/-- FURB149 on a bool operand -/
+theorem sound_149_eq_true : Sound r149_eq_true := by
+  intro σ hwt _
+  obtain ⟨vx, hx0, htx⟩ := hwt ("x", some .bool) (by simp [r149_eq_true])
+  obtain ⟨bx, rfl⟩ := of_bool htx
+  have hx : σ "x" = some _ := hx0
+  simp only [r149_eq_true]
+  py_simp
+  all_goals (cases bx <;> simp [sEq, Scalar.num?])
+
+theorem sound_149_is_true : Sound r149_is_true := by
+  intro σ hwt _
+  obtain ⟨vx, hx0, htx⟩ := hwt ("x", some .bool) (by simp [r149_is_true])
+  obtain ⟨bx, rfl⟩ := of_bool htx
+  have hx : σ "x" = some _ := hx0
+  simp only [r149_is_true]
+  py_simp
+  all_goals (cases bx <;> simp)
+
+theorem sound_149_ne_false : Sound r149_ne_false := by
+  intro σ hwt _
+  obtain ⟨vx, hx0, htx⟩ := hwt ("x", some .bool) (by simp [r149_ne_false])
+  obtain ⟨bx, rfl⟩ := of_bool htx
+  have hx : σ "x" = some _ := hx0
+  simp only [r149_ne_false]
+  py_simp
+  all_goals (cases bx <;> simp [sEq, Scalar.num?])
+
+theorem sound_149_eq_false : Sound r149_eq_false := by
+  intro σ hwt _
+  obtain ⟨vx, hx0, htx⟩ := hwt ("x", some .bool) (by simp [r149_eq_false])
+  obtain ⟨bx, rfl⟩ := of_bool htx
+  have hx : σ "x" = some _ := hx0
+  simp only [r149_eq_false]
+  py_simp
+  all_goals (cases bx <;> simp [sEq, Scalar.num?])
+
+theorem sound_149_is_not_true : Sound r149_is_not_true := by
+  intro σ hwt _
+  obtain ⟨vx, hx0, htx⟩ := hwt ("x", some .bool) (by simp [r149_is_not_true])
+  obtain ⟨bx, rfl⟩ := of_bool htx
+  have hx : σ "x" = some _ := hx0
+  simp only [r149_is_not_true]
+  py_simp
+  all_goals (cases bx <;> simp)
+
+theorem sound_168 : Sound r168_isinstance_none := by
+  intro σ hwt _
+  obtain ⟨vx, hx0, htx⟩ := hwt ("x", anyS) (by simp [r168_isinstance_none])
+  obtain ⟨sx, rfl⟩ := htx
+  have hx : σ "x" = some _ := hx0
+  simp only [r168_isinstance_none]
+  py_simp
+  all_goals (cases sx <;> simp)
+
+theorem sound_169 : Sound r169_type_is_none := by
+  intro σ hwt _
+  obtain ⟨vx, hx0, htx⟩ := hwt ("x", anyS) (by simp [r169_type_is_none])
+  obtain ⟨sx, rfl⟩ := htx
+  have hx : σ "x" = some _ := hx0
+  simp only [r169_type_is_none]
+  py_simp
+  all_goals (cases sx <;> simp)
+
+theorem sound_171 : Sound r171_in_single := by
+  intro σ hwt _
+  obtain ⟨vx, hx0, htx⟩ := hwt ("x", anyS) (by simp [r171_in_single])
+  obtain ⟨sx, rfl⟩ := htx
+  have hx : σ "x" = some _ := hx0
+  obtain ⟨vy, hy0, hty⟩ := hwt ("y", anyS) (by simp [r171_in_single])
+  obtain ⟨sy, rfl⟩ := hty
+  have hy : σ "y" = some _ := hy0
+  simp only [r171_in_single]
+  py_simp
+
+/-! ### refutations: the same rewrite on another part of the domain its check accepts -/
+
+def envOf (l : List (String × Val)) : Env := fun n => (l.find? (·.1 == n)).map (·.2)
+
+/-- FURB136 with a bool and an int that are equal: `True if True > 1 else 1` is `1`, `max(True, 1)` is `True` -/
+theorem refuted_136_bool_int : ¬ Sound x136_max_bool_int := by
+  intro h
+  have := h (envOf [("x", vBool true), ("y", vInt 1)])
+    (by intro p hp; simp [x136_max_bool_int] at hp; rcases hp with rfl | rfl <;> simp [envOf, typeOf, vBool, vInt])
+    (by intro p hp v hv; simp [x136_max_bool_int] at hp; rcases hp with rfl | rfl <;> simp [envOf] at hv <;> subst hv <;> rfl)
+  revert this; decide
+
+/-- FURB143 on a float: `-0.0 or 0.0` is `0.0`, not `-0.0` -/
+theorem refuted_143_float : ¬ Sound x143_or_zero_float := by
+  intro h
+  have := h (envOf [("x", .sc (.flt .negZero))])
+    (by intro p hp; simp [x143_or_zero_float] at hp; subst hp; simp [envOf, typeOf])
+    (by intro p hp v hv; simp [x143_or_zero_float] at hp; subst hp; simp [envOf] at hv; subst hv; rfl)
+  revert this; decide
+
+/-- FURB145 on a tuple: `t[:]` is fine, `t.copy()` raises -/
+theorem refuted_145_tuple : ¬ Sound x145_slice_copy_tuple := by
+  intro h
+  have := h (envOf [("x", .tuple [.int 1])])
+    (by intro p hp; simp [x145_slice_copy_tuple] at hp; subst hp; simp [envOf, typeOf])
+    (by intro p hp v hv; simp [x145_slice_copy_tuple] at hp; subst hp; simp [envOf] at hv; subst hv; rfl)
+  revert this; decide
+
+/-- why "exactly the declared type" matters: `int(True)` is `1`, not `True` -/
+theorem refuted_123_int_on_bool : ¬ Sound x123_int_bool_operand := by
+  intro h
+  have := h (envOf [("x", vBool true)])
+    (by intro p hp; simp [x123_int_bool_operand] at hp; subst hp; simp [envOf, typeOf, vBool])
+    (by intro p hp v hv; simp [x123_int_bool_operand] at hp; subst hp; simp [envOf] at hv; subst hv; rfl)
+  revert this; decide
+
+/-! ### decision tables inside the checks (regenerated from the source) -/
+
+open Generated in
+/-- FURB136's FUNC_TABLE maps each comparison to the function the model's rules use:
+    `x if x > y else y` ↦ max, `<` ↦ min, `>=` ↦ max, `<=` ↦ min -/
+theorem furb136_table_matches_rules :
+    furb136FuncTable = [("<", "min"), ("<=", "min"), (">", "max"), (">=", "max")] := by decide +kernel
+
+open Generated in
+/-- FURB149's truth table (operator, literal, keeps-x): `x == True`, `x is True`, `x != False`, `x is not False`
+    keep `x`; the other four negate it -/
+theorem furb149_table_matches_rules :
+    furb149Keeps = [("!=", false, true), ("!=", true, false), ("==", false, false), ("==", true, true),
+                    ("is", false, false), ("is", true, true), ("is not", false, true), ("is not", true, false)] := by
+  decide +kernel
+
+open Generated in
+/-- FURB115's table: `len(x) == 0`, `len(x) <= 0` mean `not x`; `len(x) > 0`, `!= 0`, `>= 1` mean `x` — the five
+    comparisons for which that is true of every sized value (a length is a natural number) -/
+theorem furb115_table_sound :
+    ∀ e ∈ furb115Truthy, ∀ n : Nat,
+      (match e.1 with
+       | "==" => decide ((n : Int) = e.2.1) | "<=" => decide ((n : Int) ≤ e.2.1) | ">" => decide ((n : Int) > e.2.1)
+       | "!=" => decide ((n : Int) ≠ e.2.1) | ">=" => decide ((n : Int) ≥ e.2.1) | "<" => decide ((n : Int) < e.2.1)
+       | _ => e.2.2 == decide (n ≠ 0)) = (e.2.2 == decide (n ≠ 0)) := by
+  intro e he n
+  simp only [furb115Truthy, List.mem_cons, List.mem_nil_iff, or_false] at he
+  rcases he with rfl | rfl | rfl | rfl | rfl <;> (rw [Bool.eq_iff_iff]; simp; try omega)
+
+open Generated in
+/-- FURB123 proposes the bare operand for the immutable classes and `.copy()` for the mutable containers -/
+theorem furb123_mapping_matches_rules :
+    furb123Mapping.map (fun e => (e.1, e.2.1)) =
+      [("builtins.bool", ""), ("builtins.bytes", ""), ("builtins.complex", ""), ("builtins.dict", ".copy()"),
+       ("builtins.float", ""), ("builtins.int", ""), ("builtins.list", ".copy()"), ("builtins.set", ".copy()"),
+       ("builtins.str", ""), ("builtins.tuple", "")] := by decide +kernel
+
+/-! ### all proved rules at once -/
+
+theorem all_rules_sound : ∀ r ∈ rules, r.code ≠ 192 → Sound r := by
+  intro r hr h192
+  simp only [rules, List.mem_cons, List.mem_nil_iff, or_false] at hr
+  rcases hr with rfl | rfl | rfl | rfl | rfl | rfl | rfl | rfl | rfl | rfl | rfl | rfl | rfl | rfl | rfl | rfl | rfl | rfl | rfl | rfl | rfl | rfl | rfl | rfl | rfl | rfl | rfl | rfl | rfl | rfl | rfl | rfl | rfl
+  · exact sound_108
+  · exact sound_109
+  · exact sound_110
+  · exact sound_114
+  · exact sound_115_eq0_str
+  · exact sound_115_eq0_list
+  · exact sound_115_ge1_list
+  · exact sound_115_gt0_tuple
+  · exact sound_115_ne0_str
+  · exact sound_123_int
+  · exact sound_123_str
+  · exact sound_123_bool
+  · exact sound_123_list
+  · exact sound_123_tuple
+  · exact sound_124
+  · exact sound_136_max_int
+  · exact sound_136_min_int
+  · exact sound_136_max_str
+  · exact sound_143_str
+  · exact sound_143_int
+  · exact sound_143_list
+  · exact sound_143_bool
+  · exact sound_143_tuple
+  · exact sound_145_list
+  · exact sound_149_eq_true
+  · exact sound_149_is_true
+  · exact sound_149_ne_false
+  · exact sound_149_eq_false
+  · exact sound_149_is_not_true
+  · exact sound_168
+  · exact sound_169
+  · exact sound_171
+  · exact absurd rfl h192
+
 end RefurbVerif.C01
